@@ -21,13 +21,13 @@ import (
 	dbm "github.com/cosmos/cosmos-db"
 	"github.com/cosmos/cosmos-sdk/baseapp"
 	"github.com/cosmos/cosmos-sdk/client/flags"
+	"github.com/cosmos/cosmos-sdk/codec"
 	codectypes "github.com/cosmos/cosmos-sdk/codec/types"
 	cryptocodec "github.com/cosmos/cosmos-sdk/crypto/codec"
 	"github.com/cosmos/cosmos-sdk/crypto/keys/ed25519"
 	"github.com/cosmos/cosmos-sdk/crypto/keys/secp256k1"
 	"github.com/cosmos/cosmos-sdk/server"
 	simtestutil "github.com/cosmos/cosmos-sdk/testutil/sims"
-	"github.com/cosmos/cosmos-sdk/codec"
 	sdk "github.com/cosmos/cosmos-sdk/types"
 	authtypes "github.com/cosmos/cosmos-sdk/x/auth/types"
 	banktypes "github.com/cosmos/cosmos-sdk/x/bank/types"
@@ -211,8 +211,8 @@ func BuildGenesis(app *simapp.SimApp, users []User, o Options) simapp.GenesisSta
 	validator := stakingtypes.Validator{
 		OperatorAddress: sdk.ValAddress(val.Address).String(), ConsensusPubkey: pkAny, Status: stakingtypes.Bonded,
 		Tokens: bondAmt, DelegatorShares: sdkmath.LegacyOneDec(), Description: stakingtypes.Description{},
-		UnbondingTime: time.Unix(0, 0).UTC(),
-		Commission:    stakingtypes.NewCommission(sdkmath.LegacyZeroDec(), sdkmath.LegacyZeroDec(), sdkmath.LegacyZeroDec()),
+		UnbondingTime:     time.Unix(0, 0).UTC(),
+		Commission:        stakingtypes.NewCommission(sdkmath.LegacyZeroDec(), sdkmath.LegacyZeroDec(), sdkmath.LegacyZeroDec()),
 		MinSelfDelegation: sdkmath.ZeroInt(),
 	}
 	deleg := stakingtypes.NewDelegation(users[0].Addr.String(), sdk.ValAddress(val.Address).String(), sdkmath.LegacyOneDec())
@@ -360,6 +360,11 @@ func (c *Case) Time() time.Time { return c.Ctx.BlockTime() }
 
 func isOverflow(p interface{}) bool {
 	s := fmt.Sprint(p)
+	if strings.Contains(s, "Int64()") || strings.Contains(s, "Uint64()") {
+		// a conversion of a number that does exist on chain (2^63 is an ordinary amount of an 18-decimals coin) to a
+		// machine integer: not the refusal of an unrepresentable number but a defect of the caller
+		return false
+	}
 	return strings.Contains(s, "Int overflow") || strings.Contains(s, "integer overflow") || strings.Contains(s, "overflow") && strings.Contains(s, "Int") ||
 		strings.Contains(s, "decimal out of range") || strings.Contains(s, "out of bound")
 }
